@@ -34,7 +34,10 @@ def miri_target():
     return os.path.join(vdriver.BASE, 'target_miri')
 
 
-MIRI_ENV = {'MIRIFLAGS': '-Zmiri-disable-isolation -Zmiri-ignore-leaks', 'CARGO_NET_OFFLINE': 'true'}
+# Tree Borrows, not the default Stacked Borrows: SB is an experimental model that is stricter than anything the properties
+# state (see DESIGN.md section 4, 'Stacked Borrows observation'); TB still checks aliasing, and every memory-safety check
+# the properties rely on (bounds, dangling, uninitialised, invalid values) is unaffected by the choice.
+MIRI_ENV = {'MIRIFLAGS': '-Zmiri-disable-isolation -Zmiri-ignore-leaks -Zmiri-tree-borrows', 'CARGO_NET_OFFLINE': 'true'}
 
 
 def miri_cmd(pkg):
@@ -42,8 +45,8 @@ def miri_cmd(pkg):
 
 
 def miri_run(pkg, mode, shards, extra_args=None, timeout=6 * 3600):
-    """Miri substrate (thorough tiers): the same enumeration, interpreted by Miri with Stacked Borrows, as a per-execution
-    UB monitor (out-of-bounds, uninitialised reads, invalid values, aliasing). Reduced bounds where noted in the rule."""
+    """Miri substrate (thorough tiers): the same enumeration, interpreted by Miri (Tree Borrows), as a per-execution
+    UB monitor (out-of-bounds, uninitialised reads, invalid values, Tree Borrows aliasing). Reduced bounds where noted in the rule."""
     env = dict(MIRI_ENV, CARGO_TARGET_DIR=miri_target())
     # one sequential invocation first so that the parallel shards find everything built
     from vdriver import HARNESS, env_base, sh
@@ -81,7 +84,7 @@ def engine_part(name, pkg, mode, shards_quick=1, shards_thorough=NCPU, release_i
         if miri and tier == 'thorough':
             r4 = miri_run(pkg, mode, NCPU, extra_args=miri_args)
             res['violations'] += r4['violations']
-            subs['miri(nightly, stacked borrows)'] = {'evaluations': r4['result'].get('evaluations'), 'violations': len(r4['violations']), 'args': miri_args}
+            subs['miri(nightly, tree borrows)'] = {'evaluations': r4['result'].get('evaluations'), 'violations': len(r4['violations']), 'args': miri_args}
         res['substrates'] = subs
         return res
 
